@@ -13,8 +13,9 @@ use std::time::Duration;
 pub static mut CLOCK: u64 = 1;
 /// 0 = every reading advances the clock by an arbitrary u8; n>0 = by exactly n.
 pub static mut TICK: u64 = 0;
-/// Number of clock readings so far.
-pub static mut NOW_CALLS: usize = 0;
+// NOTE: do not add further statics that `now()` writes: with a second written static CBMC 6.11
+// resolved a later read of a heap-stored `Option<Vec<_>>` field to an unconstrained value
+// (spurious NULL-pointer failures in Vec::extend); see DESIGN.md "engine artefacts".
 
 #[derive(Copy, Clone, PartialEq, Eq, PartialOrd, Ord, Hash)]
 pub struct Instant(pub u64);
@@ -27,7 +28,6 @@ impl Instant {
         unsafe {
             let step: u64 = if TICK != 0 { TICK } else { arbitrary_step() };
             CLOCK = CLOCK.saturating_add(step);
-            NOW_CALLS = NOW_CALLS.wrapping_add(1);
             Instant(CLOCK)
         }
     }
